@@ -1504,7 +1504,8 @@ def run_proxy_case(env, case):
 
 def proxy_oracle(env, case, obs):
     sc = case["scenario"]
-    want = {"denied": env.deny_reason, "validator": "denied:proxy-case", "unknown": "unknown object"}.get(sc)
+    # the validator's words and the transport's refusal text must arrive literally; for an unknown object any non-empty reason will do
+    want = {"denied": env.deny_reason, "validator": "denied:proxy-case", "unknown": ""}.get(sc)
     who = "proxy using %s against the %s server" % (SER_NAMES[case["client_ser"]], case["sty"])
     bad = []
     if sc == "ok":
@@ -1513,7 +1514,8 @@ def proxy_oracle(env, case, obs):
         return bad
     if obs["execs"]:
         bad.append(("exec-without-handshake", "%s: refused (%s) but a method ran" % (who, sc)))
-    if obs["outcome"] != "CommunicationError" or ("rejected: " + want) not in (obs["detail"] or ""):
+    detail = obs["detail"] or ""
+    if obs["outcome"] != "CommunicationError" or ("rejected: " + want) not in detail or not detail.split("rejected: ", 1)[-1].strip():
         bad.append(("client-loses-rejection-reason", "%s: refused (%s) but the caller got %s %r instead of the rejection carrying %r" % (who, sc, obs["outcome"], obs["detail"], want)))
     return bad
 
